@@ -30,6 +30,7 @@ import (
 	"strconv"
 	"strings"
 	"unicode"
+	"unicode/utf8"
 
 	"golang.org/x/tools/go/ssa"
 )
@@ -266,7 +267,11 @@ func (fr *frame) eval1(v ssa.Value) Val {
 	case *ssa.UnOp:
 		return fr.unop(x)
 	case *ssa.Convert:
-		return convertVal(fr.eval(x.X), x.X.Type(), x.Type(), fr.in.Sizes)
+		xv := fr.eval(x.X)
+		if r, ok := fr.convertSeq(x, xv); ok {
+			return r
+		}
+		return convertVal(xv, x.X.Type(), x.Type(), fr.in.Sizes)
 	case *ssa.ChangeType:
 		return fr.eval(x.X)
 	case *ssa.ChangeInterface:
@@ -1237,6 +1242,36 @@ func (fr *frame) pureCall(fn *ssa.Function, args []Val) (Val, bool) {
 				return Val{K: KStr, S: strings.Join(parts, args[1].S), Dep: d}, true
 			}
 		}
+	case "unicode/utf8.DecodeRuneInString", "unicode/utf8.DecodeLastRuneInString":
+		if allKnown && args[0].K == KStr {
+			var c rune
+			var w int
+			if fn.Name() == "DecodeRuneInString" {
+				c, w = utf8.DecodeRuneInString(args[0].S)
+			} else {
+				c, w = utf8.DecodeLastRuneInString(args[0].S)
+			}
+			return Val{K: KTuple, Elems: []Val{{K: KInt, I: big.NewInt(int64(c)), Dep: dep}, {K: KInt, I: big.NewInt(int64(w)), Dep: dep}}}, true
+		}
+		return Val{K: KTuple, Elems: []Val{topDep(dep), topDep(dep)}}, true
+	case "unicode/utf8.RuneCountInString":
+		if allKnown && args[0].K == KStr {
+			return Val{K: KInt, I: big.NewInt(int64(utf8.RuneCountInString(args[0].S))), Dep: dep}, true
+		}
+	case "unicode/utf8.RuneLen":
+		if allKnown && args[0].K == KInt && args[0].I.IsInt64() {
+			return Val{K: KInt, I: big.NewInt(int64(utf8.RuneLen(rune(args[0].I.Int64())))), Dep: dep}, true
+		}
+	case "unicode.ToUpper", "unicode.ToLower":
+		if allKnown && args[0].K == KInt && args[0].I.IsInt64() {
+			c := rune(args[0].I.Int64())
+			if fn.Name() == "ToUpper" {
+				c = unicode.ToUpper(c)
+			} else {
+				c = unicode.ToLower(c)
+			}
+			return Val{K: KInt, I: big.NewInt(int64(c)), Dep: dep}, true
+		}
 	case "strconv.Itoa":
 		if allKnown && args[0].K == KInt {
 			return Val{K: KStr, S: args[0].I.String(), Dep: dep}, true
@@ -1268,4 +1303,60 @@ func (fr *frame) pureCall(fn *ssa.Function, args []Val) (Val, bool) {
 		return Val{}, false
 	}
 	return topDep(dep), true
+}
+
+// convertSeq handles the conversions between strings and modelled byte or
+// rune slices: string(s) of a slice whose elements are known, []byte(str) and
+// []rune(str) of a known string.
+func (fr *frame) convertSeq(x *ssa.Convert, v Val) (Val, bool) {
+	elemOf := func(t types.Type) *types.Basic {
+		if sl, ok := t.Underlying().(*types.Slice); ok {
+			if b, ok := sl.Elem().Underlying().(*types.Basic); ok && (b.Kind() == types.Uint8 || b.Kind() == types.Int32) {
+				return b
+			}
+		}
+		return nil
+	}
+	if isStringType(x.Type()) {
+		b := elemOf(x.X.Type())
+		if b == nil || v.K != KSlice || !strings.Contains(v.S, "#") || v.Len < 0 || v.Len > 4096 {
+			if b != nil && v.K == KNil {
+				return strVal(""), true
+			}
+			return Val{}, false
+		}
+		var sb strings.Builder
+		dep := v.Dep
+		for i := 0; i < v.Len; i++ {
+			e := fr.load(fmt.Sprintf("%s[%d]", v.S, v.Off+i), b)
+			if e.K != KInt || !e.I.IsInt64() {
+				return topDep(true), true
+			}
+			dep = dep || e.Dep
+			if b.Kind() == types.Uint8 {
+				sb.WriteByte(byte(e.I.Int64()))
+			} else {
+				sb.WriteRune(rune(e.I.Int64()))
+			}
+		}
+		return Val{K: KStr, S: sb.String(), Dep: dep}, true
+	}
+	if b := elemOf(x.Type()); b != nil && isStringType(x.X.Type()) && v.K == KStr && len(v.S) <= 256 {
+		base := fr.siteName(x)
+		fr.allocate(base)
+		n := 0
+		if b.Kind() == types.Uint8 {
+			for i := 0; i < len(v.S); i++ {
+				fr.store(Val{K: KPtr, S: fmt.Sprintf("%s[%d]", base, n)}, Val{K: KInt, I: big.NewInt(int64(v.S[i])), Dep: v.Dep}, nil)
+				n++
+			}
+		} else {
+			for _, c := range v.S {
+				fr.store(Val{K: KPtr, S: fmt.Sprintf("%s[%d]", base, n)}, Val{K: KInt, I: big.NewInt(int64(c)), Dep: v.Dep}, nil)
+				n++
+			}
+		}
+		return Val{K: KSlice, S: base, Len: n, Dep: v.Dep}, true
+	}
+	return Val{}, false
 }
